@@ -18,6 +18,27 @@ Init == /\ v \in {View(l, t, w, h) : l \in 0 .. PMAX - 1, t \in 0 .. PMAX - 1, w
         /\ hasb \in BOOLEAN
         /\ which \in 1 .. PMAX
 Next == UNCHANGED vars
+\* model of the row iterators only (MC_Rows.cfg): every view, fixed split arguments
+RowsInit == /\ v \in {View(l, t, w, h) : l \in 0 .. PMAX - 1, t \in 0 .. PMAX - 1, w \in 0 .. PMAX, h \in 0 .. PMAX}
+            /\ v.l + v.w <= PMAX /\ v.t + v.h <= PMAX
+            /\ a = [axis |-> "h", start |-> 0, size |-> 1, parts |-> 1] /\ b = a /\ hasb = FALSE /\ which = 1
+
+\* the row iterators stay inside the view: every row is one row of the view's rectangle, in order, never repeated
+TagsOf(rows) == UNION {{rows[i][x] : x \in 1 .. Len(rows[i])} : i \in 1 .. Len(rows)}
+CellTags(vv) == {c[2] * 256 + c[1] : c \in Cells(vv)}
+RowsInv ==
+    \A start \in 0 .. PMAX + 1 :
+        /\ TagsOf(RowsFrom(v, start)) \subseteq CellTags(v)
+        /\ Len(RowsFrom(v, start)) = MaxI(0, v.h - start)
+        /\ (start = 0 /\ v.w > 0 => TagsOf(RowsFrom(v, 0)) = CellTags(v))
+        /\ \A n \in {2, 4} : \A max \in 0 .. PMAX + 1 :
+              LET gs == RowGroups(v, start, max, n)
+              IN  /\ \A g \in 1 .. Len(gs) : Len(gs[g]) = n /\ TagsOf(gs[g]) \subseteq CellTags(v)
+                  /\ Len(gs) * n <= MaxI(0, MinI(v.h - start, max))
+        /\ \A stepn \in {1, 2, 3, 5} : \A max \in {1, PMAX + 2} :
+              LET rs == RowsStep(v, start, stepn, 2, max)
+              IN  /\ Len(rs) <= max /\ TagsOf(rs) \subseteq CellTags(v)
+                  /\ (v.w > 0 => \A i \in 1 .. Len(rs) - 1 : rs[i][1] <= rs[i + 1][1])
 
 Inv == /\ SplitTiles(v, a)
        \* None exactly when the arguments are not a band of the view cut into 1..size parts
